@@ -327,7 +327,7 @@ def check_comments(run: Run, pmodel: ParserModel) -> None:
 
 # ======================================================================================= R02.4
 def check_value_dispatch(run: Run) -> None:
-    run.rule("R02.4", "Parser.parse_value has an explicit `token.type == TokenType.X` branch for every member X of VALUE_TOKENS, so no value token reaches the catch-all that renders str(token.value)", 7)
+    run.rule("R02.4", "Parser.parse_value has an explicit `token.type == TokenType.X` branch for every member X of VALUE_TOKENS, so no value token reaches the catch-all that renders str(token.value); a structural token (NEWLINE, COMMENT, INDENT, EOF, ENVELOPE_END) in value position is never consumed as the value", 10)
     p = run.project
     pm = p.mod("core.parser")
     vt = p.const(pm, "VALUE_TOKENS")
@@ -344,6 +344,32 @@ def check_value_dispatch(run: Run) -> None:
                             explicit.add(x.attr)
             nxt = cur.orelse
             cur = nxt[0] if len(nxt) == 1 and isinstance(nxt[0], ast.If) else None
+    # structural tokens must not be consumed as a value by the catch-all
+    ch = Chain(p, pm, {"token.type", "self.current().type"}, set(), {})
+    top = [st for st in fi.node.body if isinstance(st, ast.If)]  # type: ignore[attr-defined]
+    for T in ("NEWLINE", "COMMENT", "INDENT", "EOF", "ENVELOPE_END"):
+        taken = None
+        for st in top:
+            cur = st
+            while isinstance(cur, ast.If):
+                r = ch.test(cur.test, T)
+                if r is not False:
+                    taken = cur.body
+                    break
+                nxt = cur.orelse
+                if len(nxt) == 1 and isinstance(nxt[0], ast.If):
+                    cur = nxt[0]
+                else:
+                    taken = nxt or None
+                    cur = None
+            if taken is not None:
+                break
+        reads_value = taken is not None and any(isinstance(n, ast.Attribute) and n.attr == "value" and _text(n.value) in ("token", "self.current()") for b in taken for n in ast.walk(b))
+        consumes = taken is not None and any(isinstance(n, ast.Call) and _text(n.func) == "self.advance" for b in taken for n in ast.walk(b))
+        ok = not (reads_value and consumes)
+        run.instance("R02.4", pm.loc(fi.node), f"parse_value: a {T} token in value position is " + ("left for the caller" if ok else "CONSUMED as the value"), ok=ok)
+        if not ok:
+            run.violation("R02.4", pm, "Parser.parse_value", f"{T} consumed as a value", f"when the token after `::` is a {T} (nothing on the line), parse_value's branch for it takes str(token.value) as the value and consumes the token: `K::` at the end of a line reads as the text of that token instead of an empty value")
     for m in members:
         ok = m in explicit
         run.instance("R02.4", pm.loc(fi.node), f"parse_value: branch for {m}", ok=ok)
